@@ -17,6 +17,8 @@ impl CmdClean {
         for path in metadata.build_info.generated_files.keys() {
             if path.exists() {
                 info!("Removing file ({})", path.to_string_lossy());
+                #[cfg(feature = "verif")]
+                veryl_path::sim::point("clean.remove", path).into_diagnostic()?;
                 fs::remove_file(path).into_diagnostic()?;
             }
         }
